@@ -5,6 +5,7 @@ pub mod c02;
 pub mod c03;
 pub mod c04;
 pub mod c05;
+pub mod c06;
 pub mod c07;
 pub mod c08;
 pub mod c09;
@@ -24,6 +25,7 @@ pub fn property(id: &str) -> Option<Property> {
         "C03" => Some(c03::property()),
         "C04" => Some(c04::property()),
         "C05" => Some(c05::property()),
+        "C06" => Some(c06::property()),
         "C07" => Some(c07::property()),
         "C08" => Some(c08::property()),
         "C09" => Some(c09::property()),
